@@ -386,6 +386,8 @@ def sbc_contracts(cs, tier):
                     o2 = "(%s + %d + %s * %s)" % (o2, dim.size, nn, bl)
                 elif m["mkind"] == "data":
                     break
+        if has_group and tier != "thorough":
+            continue  # entry loops make these two contracts cost many minutes of solver time: thorough tier only
         name = "%s:%s::size_bytes_checked" % (cs.name, idn)
         out.append(Contract(f, name + " [any buffer]", props={"C06"}, ghosts=GH_N, mode="S", pre=pre + bound, post=post, assigns=[], kind=kind, unwind=unwind, backends=PB,
                             note="hostile buffers: every length n, every content"))
@@ -460,6 +462,13 @@ def constness_contracts(cs, tier):
             post.append(("%s-setter-available-on-mutable-view (detection control)" % m["name"], "RET.p%d[0] && RET.p%d[1]" % (i, i)))
         out.append(Contract(f, "%s:%s::setters rejected for const byte types" % (cs.name, idn), props={"C11"}, pre=[], post=post, assigns=[],
                             note="decided by clang's overload resolution while lowering (expression-validity detection); CBMC only checks the resulting constants"))
+    for idn, arrs in g.constelem_roots:
+        f = u.root("r_%s_constelems" % idn)
+        post = []
+        for i, m in arrs:
+            post.append(("%s-elements-are-const-through-a-const-byte-view" % m["name"], "RET.c%d" % i))
+            post.append(("%s-elements-are-mutable-through-a-mutable-view (control)" % m["name"], "!RET.m%d" % i))
+        out.append(Contract(f, "%s:%s::array element constness" % (cs.name, idn), props={"C11"}, pre=[], post=post, assigns=[]))
     f = u.root("r_conversions")
     n = len(g.levels)
     post = [("views-convert-towards-const", " && ".join("RET.to_const[%d]" % k for k in range(n))), ("views-do-not-convert-from-const", " && ".join("!RET.from_const[%d]" % k for k in range(n))),
